@@ -392,6 +392,37 @@ func runC09(r *Run) {
 		}
 		r.Floor("R13", "canonical stores to ClawbackVestingAccount.FunderAddress", nF, 2)
 	}
+	r.Rule("R14", "SHAPE.validate-accepts-what-clawback-leaves: ComputeClawback ends the account at max(capped vesting end, capped lock-up end), and both collapse to the start time when nothing has vested yet (or only the zero-length 'instant' default periods survive): a clawed-back account can have EndTime == StartTime. ClawbackVestingAccount.Validate therefore rejects only StartTime > EndTime; a non-strict comparison (>=) makes every fully clawed-back account invalid — it no longer passes genesis validation after an export")
+	if vf, ok := r.P.FnOK("(x/vesting/types.ClawbackVestingAccount).Validate"); ok && vf.Synthetic == "" {
+		class, n := "", 0
+		eachInstr(vf, func(in ssa.Instruction) {
+			b, ok := in.(*ssa.BinOp)
+			if !ok {
+				return
+			}
+			isStart := func(v ssa.Value) bool {
+				return backSlice(v).HasCall(func(g CallInfo) bool { return g.Name == "GetStartTime" })
+			}
+			isEnd := func(v ssa.Value) bool {
+				return backSlice(v).HasCall(func(g CallInfo) bool { return g.Name == "GetEndTime" })
+			}
+			op := b.Op
+			switch {
+			case isStart(b.X) && isEnd(b.Y):
+			case isEnd(b.X) && isStart(b.Y):
+				op = flipCmp(op)
+			default:
+				return
+			}
+			n++
+			class = op.String() // normalised to start OP end
+		})
+		// start > end (or its negation start <= end) leaves equality valid; start >= end / start < end does not
+		r.Check(n == 1 && (class == ">" || class == "<="), "R14", fnID(vf)+"#accepts-start-equal-end", r.P.Pos(fnPos(vf)), "rejects start "+class+" end only",
+			"Validate compares start "+class+" end: an account whose end time equals its start time is invalid, but that is exactly what a clawback before the first vesting event leaves behind (the transfer itself is right; the account that remains fails validation and an exported genesis is rejected)")
+	} else {
+		r.Bad("R14", "anchor/ClawbackVestingAccount.Validate", "", "not found")
+	}
 	_ = fmt.Sprint
 }
 
